@@ -92,6 +92,8 @@ VH_NOINSTR int main(int argc, char** argv) {
   vh_parse(argv[2]);
   fiber_manager_init(k);
   kthreads = k;
+  vh_rt_prepare(); /* run queues named (@Q<k>a/b), main fiber named @F0 and F0.state registered: the
+                    * N-thread scheduler model (SchedN) replays the run-queue events of this log */
   for (int i = 0; i < NPRIM; i++) {
     fiber_barrier_init(&bars[i], 2);
     fiber_semaphore_init(&sems[i], 0);
